@@ -50,6 +50,7 @@ fn observe(ctx: &mut Ctx, what: &str, bytes: &[u8], fault: &str) -> Option<Resul
 }
 
 fn hostile(ctx: &mut Ctx, bytes: &[u8], fault: &str) {
+    ctx.evals += 1;
     ctx.count(&format!("fault.{}", fault));
     observe(ctx, "from_slice", bytes, fault);
     observe(ctx, "parse_jsonb", bytes, fault);
@@ -59,6 +60,7 @@ fn hostile(ctx: &mut Ctx, bytes: &[u8], fault: &str) {
 fn prefixes(ctx: &mut Ctx, enc: &[u8], doc: &Tree) {
     for cut in 0..enc.len() {
         let p = &enc[..cut];
+        ctx.evals += 1;
         ctx.count("fault.truncate");
         for what in ["from_slice", "parse_jsonb"] {
             if let Some(Ok(t)) = observe(ctx, what, p, "truncate") {
@@ -238,6 +240,7 @@ fn text_fallback(ctx: &mut Ctx, text: &[u8], class: &str) {
         Ok(p) => p,
         Err(_) => return,
     };
+    ctx.evals += 1;
     ctx.count(&format!("text.{}", class));
     let info = || format!("text={:?} bytes={}", lossy(text), hex(text));
     match observe(ctx, "from_slice", text, "valid-json-text") {
